@@ -542,7 +542,51 @@ class CallMixin:
         if meth == "clear":
             ops.write_list(self, st, r, z3.IntVal(0), z3.K(IntS, VNone), line)
             return SV(VNone, NONE)
+        if meth == "sort":
+            return self.list_sort(recv, ek, node, st, cx)
         raise OutOfSubset("list.%s (line %s)" % (meth, line))
+
+    def list_sort(self, recv, ek, node, st, cx):
+        """list.sort() / list.sort(key=lambda x: <int expression>): the new contents are a permutation of the old
+        ones (explicit bijection `perm`) in non-decreasing key order. Stability is NOT modelled (a weaker fact)."""
+        from .evalx import Binder
+        r = ref(recv.t)
+        line = node.lineno
+        if node.args or any(kw.arg not in ("key",) for kw in node.keywords):
+            raise OutOfSubset("list.sort with these arguments (line %s)" % line)
+        lam = node.keywords[0].value if node.keywords else None
+        if lam is not None and not (isinstance(lam, ast.Lambda) and len(lam.args.args) == 1):
+            raise OutOfSubset("list.sort key is not a one-argument lambda (line %s)" % line)
+        n = ops.l_len(st, r)
+        old = ops.l_el(st, r)
+        new = fresh("sorted", old.sort())
+        perm = z3.Function(str(fresh("perm", IntS)), IntS, IntS)
+        i, j = bvar("si"), bvar("sj")
+
+        def key_of(idx):
+            el = SV(z3.Select(new, idx), ek)
+            if lam is None:
+                return el
+            with Binder(st) as b_:
+                b_.snap()
+                st.env[lam.args.args[0].arg] = el
+                return self.ev(lam.body, st, cx)
+        ki, kj = key_of(i), key_of(j)
+        if ki.k.head == "int" or (lam is not None and ki.k == ANY):
+            le = self.as_int(ki) <= self.as_int(kj)
+        elif ki.k.head == "str":
+            le = z3.Or(self.as_str(ki) == self.as_str(kj), self.as_str(ki) < self.as_str(kj))
+        else:
+            raise OutOfSubset("list.sort on keys of kind %r (line %s)" % (ki.k, line))
+        inr = lambda x: z3.And(0 <= x, x < n)      # noqa: E731
+        st.assume(z3.ForAll([i], z3.Implies(inr(i), z3.And(inr(perm(i)), z3.Select(new, i) == z3.Select(old, perm(i)))),
+                            patterns=[z3.Select(new, i)]))
+        st.assume(z3.ForAll([i, j], z3.Implies(z3.And(inr(i), inr(j), i != j), perm(i) != perm(j)),
+                            patterns=[z3.MultiPattern(perm(i), perm(j))]))
+        st.assume(z3.ForAll([i], z3.Implies(z3.Not(inr(i)), z3.Select(new, i) == VNone), patterns=[z3.Select(new, i)]))
+        st.assume(z3.ForAll([i, j], z3.Implies(z3.And(inr(i), inr(j), i < j), le)))
+        ops.write_list(self, st, r, n, new, line)
+        return SV(VNone, NONE)
 
     def set_method(self, recv, k, meth, node, st, cx):
         r = ref(recv.t)
